@@ -93,6 +93,7 @@ def tasks(tier):
     out.append('tie:ducowicz')
     out.append('ducowicz_bounded')
     out.append('dispatch')
+    out.append('prefun')
     for s in ITERATIVE:
         out.append('gal:%s' % s)
         if 'scale:%s' % s not in NOT_VERIFIED:
@@ -488,6 +489,8 @@ def run_task(task, ctx):
         return task_eq(ctx, repo, m, parts[1])
     if kind == 'tie':
         return task_tie(ctx, repo, m)
+    if kind == 'prefun':
+        return task_prefun(ctx, repo, m)
     if kind == 'dispatch':
         return task_dispatch(ctx, repo, m)
     if kind == 'pos':
@@ -774,6 +777,114 @@ def task_pos(ctx, repo, m, fn):
                                 'on success')
         return dict(reproduced=False)
     ctx.prove('%s.success' % fn, obs, replay=rp)
+
+
+def task_prefun(ctx, repo, m):
+    """prefun_exact(p, rho_k, p_k, c_k, ...) with the constants `exact`
+    passes (g1 = (g-1)/2g, g2 = (g+1)/2g, g4 = 2/(g-1), g5 = 2/(g+1),
+    g6 = (g-1)/(g+1), c_k = sqrt(g p_k / rho_k)):  result[0] is the pressure
+    function of the property's reference (rarefaction branch for p <= p_k,
+    shock branch above), it vanishes at p = p_k on both branches, and
+    result[1] is its derivative with respect to p -- `exact` stops on the
+    size of the Newton step, which bounds the residual only when the slope
+    is the true one."""
+    from pyvc import calc
+    fn = m.functions['prefun_exact']
+    p, dk, pk, gam = [z3.Real(x) for x in ('p', 'rho_k', 'p_k', 'gamma')]
+    ck = S.UF['sqrt'](gam * pk / dk)
+    g1, g2 = (gam - 1) / (2 * gam), (gam + 1) / (2 * gam)
+    g4, g5, g6 = 2 / (gam - 1), 2 / (gam + 1), (gam - 1) / (gam + 1)
+    res = [z3.Real('r0'), z3.Real('r1')]
+    ex = Executor(repo, m, qualname='prefun_exact', definedness='assume',
+                  merge=False, prune=False)
+    pre = [p > 0, dk > 0, pk > 0, gam > 1]
+    outs = ex.exec_function(fn, dict(p=p, dk=dk, pk=pk, ck=ck, g1=g1, g2=g2,
+                                     g4=g4, g5=g5, g6=g6, result=res),
+                            State(pc=list(pre)))
+    ctx.function(m, fn, 'prefun_exact', ex.dropped)
+    obs = []
+    if len(outs) != 2:
+        obs.append(Obligation('prefun.two_branches', [], z3.BoolVal(False),
+                              m.path))
+    powf = None
+    for i, o in enumerate(outs):
+        f, fd = o.state.env['result']
+        f, fd = S.to_real(f), S.to_real(fd)
+        try:
+            df = calc.ddx(f, p)
+        except VCError as e:
+            obs.append(Obligation('prefun.%d.differentiable' % i, o.pc,
+                                  z3.BoolVal(False), m.path,
+                                  extra=dict(why=str(e))))
+            continue
+        obs.append(Obligation('prefun.%d.slope_is_derivative' % i, o.pc,
+                              fd == df, m.path))
+        # value at p = p_k
+        obs.append(Obligation('prefun.%d.zero_at_pk' % i, list(pre),
+                              calc.subst(f, [(p, pk)]) == 0, m.path))
+        # the reference formulas
+        sol = z3.Solver()
+        sol.set('timeout', 10000)
+        sol.add(*[S.to_z3(c) for c in o.pc])
+        sol.add(p > pk)
+        rs_ = sol.check()
+        if rs_ == z3.unknown:
+            raise VCError('prefun: branch of a path undecided')
+        shock = rs_ == z3.sat
+        if shock:
+            want = (p - pk) * S.UF['sqrt']((2 / ((gam + 1) * dk)) /
+                                           (p + (gam - 1) / (gam + 1) * pk))
+            obs.append(Obligation('prefun.%d.shock_branch' % i, o.pc,
+                                  f == want, m.path))
+        else:
+            # 2 c/(g-1) ((p/p_k)^((g-1)/2g) - 1), with the code's own power
+            pows = [t for t in _subterms(f) if t.decl().name() == 'pow']
+            ok = len(pows) == 1
+            if ok:
+                pw = pows[0]
+                want = 2 * ck / (gam - 1) * (pw - 1)
+                obs.append(Obligation(
+                    'prefun.%d.rarefaction_branch' % i, o.pc, z3.And(
+                        f == want, pw.arg(0) == p / pk,
+                        pw.arg(1) == (gam - 1) / (2 * gam)), m.path))
+            else:
+                obs.append(Obligation('prefun.%d.rarefaction_branch' % i,
+                                      o.pc, z3.BoolVal(False), m.path))
+
+    def rp(model, ob):
+        import math
+        mod = native.load(MOD)
+        for (pp, rho, pk_, g) in ((0.3, 100.0, 1.0, 1.4), (0.05, 400.0, 0.2,
+                                                            1.4),
+                                   (2.0, 5.0, 1.0, 1.4), (0.5, 0.125, 1.0,
+                                                          5.0 / 3)):
+            c = math.sqrt(g * pk_ / rho)
+            a = ((g - 1) / (2 * g), (g + 1) / (2 * g), 2 / (g - 1),
+                 2 / (g + 1), (g - 1) / (g + 1))
+            r0, r1, r2 = [0.0, 0.0], [0.0, 0.0], [0.0, 0.0]
+            hh = 1e-6 * pp
+            mod.prefun_exact(pp, rho, pk_, c, *a, r0)
+            mod.prefun_exact(pp + hh, rho, pk_, c, *a, r1)
+            mod.prefun_exact(pp - hh, rho, pk_, c, *a, r2)
+            num = (r1[0] - r2[0]) / (2 * hh)
+            if abs(num - r0[1]) > 1e-5 * max(abs(num), abs(r0[1])):
+                return dict(reproduced=True, target='prefun_exact',
+                            inputs=dict(p=pp, rho_k=rho, p_k=pk_, gamma=g),
+                            observed=dict(fd=r0[1]),
+                            expected=dict(central_difference_of_f=num))
+        return dict(reproduced=False)
+    ctx.prove('prefun_exact.slope_is_the_derivative', obs, replay=rp)
+
+
+def _subterms(t, seen=None):
+    seen = set() if seen is None else seen
+    if t.get_id() in seen:
+        return
+    seen.add(t.get_id())
+    yield t
+    for c in t.children():
+        for x in _subterms(c, seen):
+            yield x
 
 
 def task_vac(ctx, repo, m):
